@@ -31,64 +31,76 @@ import "github.com/dcaiafa/lox/internal/base/set"
 // First(D), and '+' by First('+'). Finally ε is in the final result only
 // because First(D) includes it.
 func First(g *Grammar, syms []Term) set.Set[*Terminal] {
-	visited := new(set.Set[Term])
-	if len(syms) == 1 {
-		return first(g, visited, syms[0])
-	}
+	ruleFirst := ruleFirstSets(g)
 	var firstSet set.Set[*Terminal]
 	for _, sym := range syms {
-		partialFirst := first(g, visited, sym)
-		firstSet.AddSet(partialFirst)
+		var partialFirst set.Set[*Terminal]
+		switch sym := sym.(type) {
+		case *Terminal:
+			partialFirst = set.New[*Terminal](sym)
+		case *Rule:
+			partialFirst = *ruleFirst[sym]
+		}
+		hasEpsilon := false
+		partialFirst.ForEach(func(t *Terminal) {
+			if t == Epsilon {
+				hasEpsilon = true
+				return
+			}
+			firstSet.Add(t)
+		})
 
 		// If sym[i] includes ε, include FIRST(sym[i+1]) in FIRST(syms).
 		// Otherwise, stop now.
-		if !partialFirst.Has(Epsilon) {
-			firstSet.Remove(Epsilon)
-			break
+		if !hasEpsilon {
+			return firstSet
 		}
 	}
+	firstSet.Add(Epsilon)
 	return firstSet
 }
 
-func first(g *Grammar, visited *set.Set[Term], s Term) set.Set[*Terminal] {
-	if terminal, ok := s.(*Terminal); ok {
-		return set.New[*Terminal](terminal)
+// ruleFirstSets computes FIRST for every rule as the least fixed point of the
+// usual equations, so that recursion (direct, indirect or through nullable
+// rules) and rules reachable through more than one path need no special
+// treatment.
+func ruleFirstSets(g *Grammar) map[*Rule]*set.Set[*Terminal] {
+	if g.firstSets != nil {
+		return g.firstSets
 	}
-
-	// Productions can contain recursion.
-	// E.g.: xs = xs x | x
-	if visited.Has(s) {
-		return set.Set[*Terminal]{}
+	first := make(map[*Rule]*set.Set[*Terminal], len(g.Rules))
+	for _, rule := range g.Rules {
+		first[rule] = new(set.Set[*Terminal])
 	}
-	visited.Add(s)
-
-	rule := s.(*Rule)
-	firstSet := set.Set[*Terminal]{}
-	for _, prod := range rule.Prods {
-		if len(prod.Terms) == 0 {
-			firstSet.Add(Epsilon)
-			continue
-		}
-
-		addEpsilon := true
-		for _, term := range prod.Terms {
-			termFirst := first(g, visited, term)
-			hasEpsilon := false
-			termFirst.ForEach(func(s *Terminal) {
-				if s == Epsilon {
-					hasEpsilon = true
-					return
+	for changed := true; changed; {
+		changed = false
+		for _, prod := range g.Prods {
+			ruleFirst := first[prod.Rule]
+			allEpsilon := true
+			for _, term := range prod.Terms {
+				hasEpsilon := false
+				switch term := term.(type) {
+				case *Terminal:
+					changed = ruleFirst.Add(term) || changed
+				case *Rule:
+					for _, t := range first[term].Elements() {
+						if t == Epsilon {
+							hasEpsilon = true
+							continue
+						}
+						changed = ruleFirst.Add(t) || changed
+					}
 				}
-				firstSet.Add(s)
-			})
-			if !hasEpsilon {
-				addEpsilon = false
-				break
+				if !hasEpsilon {
+					allEpsilon = false
+					break
+				}
+			}
+			if allEpsilon {
+				changed = ruleFirst.Add(Epsilon) || changed
 			}
 		}
-		if addEpsilon {
-			firstSet.Add(Epsilon)
-		}
 	}
-	return firstSet
+	g.firstSets = first
+	return first
 }
